@@ -343,6 +343,16 @@ func c01SendHostile(b *Bed, r *gen.R, listener string, h []byte, kind string) st
 		if res.Err != nil {
 			return "" // connection-level rejection is fine
 		}
+		// The HTTP layer in front of the DNS decoder legitimately rejects a request on its own
+		// grounds (431/414 for a GET line beyond its header limit, 413): any 4xx is a rejection for
+		// undecodable input, and a size-class status is accepted for a large decodable GET too.
+		sizeClass := res.Status == 413 || res.Status == 414 || res.Status == 431
+		if want == 400 && res.Status >= 400 && res.Status < 500 {
+			want = res.Status
+		}
+		if want == 200 && sizeClass && len(h) > 1024 {
+			want = res.Status
+		}
 		if want > 0 && res.Status != want {
 			return fmt.Sprintf("http-status: status %d for an input that %s (expected %d)", res.Status, map[bool]string{true: "decodes", false: "does not decode"}[want == 200], want)
 		}
